@@ -142,3 +142,23 @@ Example C06_ex_zero_program :
 Proof. vm_compute. auto. Qed.
 Example C06_ex_checksum_hyp : in_range 32 [0; 14; 20; 15; 7; 13; 26; 0; 25; 18] /\ 0 <= BECH32M_CONST < 2 ^ 30.
 Proof. split; [repeat constructor; vm_compute; congruence|vm_compute; split; congruence]. Qed.
+
+(* ---- the command line entry point `bits bech32` (model of its branch of __main__.main) ---- *)
+Theorem C06_cli_decode_segwit_iff : forall (s h : bytes) (v : Z) (p : bytes),
+  cli_bech32_decode s = Ok (CliSegwit h v p) <-> spec_decode s = Some (h, v, p).
+Proof. exact cli_decode_segwit_iff. Qed.
+Print Assumptions C06_cli_decode_segwit_iff.
+
+Theorem C06_cli_encode_v0_is_segwit_addr : forall net hrp data,
+  In (net, hrp) [(net_mainnet, hrp_bc); (net_testnet, hrp_tb); (net_regtest, hrp_bcrt)] ->
+  cli_bech32_encode hrp data (Some 0) false = segwit_addr data 0 net.
+Proof. exact cli_encode_v0_is_segwit_addr. Qed.
+Print Assumptions C06_cli_encode_v0_is_segwit_addr.
+
+(* FINDING (known: cli-bech32-encode-v1plus): `bits bech32 --hrp bc --wv 1` writes a Bech32 (constant 1) checksum
+   for witness versions >= 1: not segwit_addr's output and not a valid segwit address *)
+Theorem C06_cli_encode_v1_refuted :
+  exists data a, cli_bech32_encode hrp_bc data (Some 1) false = Ok a
+                 /\ segwit_addr data 1 net_mainnet <> Ok a /\ spec_decode a = None /\ is_segwit_addr a = Ok false.
+Proof. exact cli_encode_v1_refuted. Qed.
+Print Assumptions C06_cli_encode_v1_refuted.
